@@ -75,6 +75,7 @@ type Incarnation struct {
 	mu   sync.Mutex // protects disk pointer and content
 	disk *Disk
 	dead bool // crashed: effects go to a detached disk and are not traced
+	graceful bool // stopped through Shutdown(), not crashed
 
 	// fault plan
 	crashAt int // crash immediately before the k-th mutating store call from now (0 = off)
@@ -278,7 +279,12 @@ func (s *SimLog) StoreLogs(logs []*raft.Log) error {
 	inc.disk.logVer++
 	inc.disk.commit = inc.staged
 	if emit && len(logs) > 0 {
-		inc.node.c.Tr.Emit("store", inc.node.ID, M{"op": "storelogs", "first": logs[0].Index, "last": logs[len(logs)-1].Index, "commit": inc.disk.commit})
+		es := []any{}
+		for _, l := range logs {
+			es = append(es, append([]any{l.Index}, inc.node.c.entryJSON(l)...))
+		}
+		inc.node.c.Tr.Emit("store", inc.node.ID, M{"op": "storelogs", "first": logs[0].Index, "last": logs[len(logs)-1].Index,
+			"commit": inc.disk.commit, "entries": es})
 	}
 	return nil
 }
@@ -380,8 +386,12 @@ func (k *simSink) Close() error {
 	}
 	inc.disk.snapVer++
 	if emit {
+		inc.node.c.mu.Lock()
+		user := inc.node.userRestoreActive
+		inc.node.userRestoreActive = false
+		inc.node.c.mu.Unlock()
 		inc.node.c.Tr.Emit("snap", inc.node.ID, M{"op": "close", "id": k.rec.ID, "idx": k.rec.Index, "term": k.rec.Term,
-			"cfg": inc.node.c.cfgStr(k.rec.Cfg), "cfgidx": k.rec.CfgIndex, "content": snapContent(k.rec.Data)})
+			"cfg": inc.node.c.cfgStr(k.rec.Cfg), "cfgidx": k.rec.CfgIndex, "content": snapContent(k.rec.Data), "user": user})
 	}
 	return nil
 }
